@@ -137,7 +137,10 @@ def regenerate():
            "From Coq Require Import String List.", "Import ListNotations.", "Open Scope string_scope.", "",
            "(* every read (incl. format strings) of the atom attributes numb / occ / beta *)",
            "Definition serial_occ_beta_readers : list (string * string * string) :=\n  "
-           + clist([f"({cstr(a)}, {cstr(b)}, {cstr(c)})" for a, b, c in attr_uses(("numb", "occ", "beta"))]) + ".", ""]
+           + clist([f"({cstr(a)}, {cstr(b)}, {cstr(c)})" for a, b, c in attr_uses(("numb", "occ", "beta"))]) + ".", "",
+           "(* every read (incl. format strings) of the residue-identifying attributes *)",
+           "Definition residue_identity_reads : list (string * string * string) :=\n  "
+           + clist([f"({cstr(a)}, {cstr(b)}, {cstr(c)})" for a, b, c in attr_uses(("chain_id", "res_num", "icode", "residue_label", "label"))]) + ".", ""]
     if common.write_if_changed(common.GEN / "Inventory_gen.v", "\n".join(inv) + "\n"):
         written.append("Inventory_gen")
     cfg = (common.REPO / "propka" / "propka.cfg").read_text()
